@@ -60,6 +60,10 @@ def build_data():
         ('eval_return', push(op('RETURN')) + op('EVAL') + push(b'\x09'), [_fl({}), _fl({'eval_return': True})]),
         ('unset_flag', op('UNSET_FLAG', b'\x01\x01') + push(SEED) + op('DERIVE_SCALAR'), [_fl({})]),
         ('set_flag', op('SET_FLAG', b'\x01\x01') + push(SEED) + op('DERIVE_SCALAR'), [_fl({1: False})]),
+        # a flag instruction inside an evaluated script stays inside it: the gated instruction that follows the EVAL in
+        # the evaluating tape still sees the embedder's setting (flag 1 off: no cache write of x)
+        ('eval_flag_leak', push(op('SET_FLAG', b'\x01\x01')) + op('EVAL') + push(SEED) + op('DERIVE_SCALAR'), [_fl({1: False})]),
+        ('eval_unflag_leak', push(op('UNSET_FLAG', b'\x01\x01')) + op('EVAL') + push(SEED) + op('DERIVE_SCALAR'), [_fl({})]),
         # limits: the family runs with callstack_limit = 8 (not the default 128): a loop that never ends by itself and a
         # self-recursive function must be stopped by that limit at every nesting level
         ('loop_limit', op('TRUE') + block('LOOP', op('TRUE')), [_fl({})]),
@@ -97,7 +101,16 @@ def _replay_cfg(args):
     for rec in recs:
         plugins = {'signature_extensions': [SigExt() for _ in range(rec['nsig'])]} if rec['nsig'] else {}
         contracts = {bytes(c): InvokeContract(bytes(c)) for c in rec['contracts']}
-        d = vmmc.replay(rec, r, plugins=plugins, contracts=contracts, flags=_replay_opts(rec))
+        # (the documented precedence: a contract supplied to the run overrides a VM-wide one with the same id)
+        F = r.F
+        shadow = [c for c in contracts if c not in F._contracts]
+        for c in shadow:
+            F.add_contract(c, InvokeContract(b'vm-wide-' + c))
+        try:
+            d = vmmc.replay(rec, r, plugins=plugins, contracts=contracts, flags=_replay_opts(rec))
+        finally:
+            for c in shadow:
+                F.remove_contract(c)
         calls = sum(p.n for p in plugins.get('signature_extensions', []))
         if calls != rec['plug']:
             d.append(f"signature-extension plugin calls: spec {rec['plug']} impl {calls}")
